@@ -777,6 +777,16 @@ theorem authAck_total (trusted : Bool) (pl : Bytes) : Good (authAck trusted pl) 
       simp [s, Good, Out.isPanic]
     · simp [Good, Out.isPanic]
 
+theorem getMPDone_total (ours : Bool) (pl : Bytes) : Good (getMPDone ours pl) ∧ (getMPDone ours pl).steps ≤ 1 := by
+  unfold getMPDone
+  split
+  · simp [Good, Out.isPanic]
+  · split
+    · simp [Good, Out.isPanic]
+    · rename_i h
+      have s : indexOk (pl.length : Int) 0 = true := by unfold indexOk; simp; omega
+      simp [s, Good, Out.isPanic]
+
 theorem fetchMessage_total (E : FetchEnv) (w : Bytes) : Good (fetchMessage E w) ∧ (fetchMessage E w).steps ≤ 1 := by
   unfold fetchMessage fetchMessageG
   simp only []
@@ -832,6 +842,7 @@ theorem parse_total (E : Env) (hts : ∀ b, E.txSize b ≤ b.length) (cmd : Stri
   case_cmd cmd "getmp" => (cases E.authorized <;> first | exact lift (processGetMP_total pl) (by omega) | simp [Out.isPanic])
   case_cmd cmd "xauth" => exact lift (authRcvd_total E.authGot pl) (by omega)
   case_cmd cmd "authack" => exact lift (authAck_total E.trusted pl) (by omega)
+  case_cmd cmd "getmpdone" => exact lift (getMPDone_total E.getmpOurs pl) (by omega)
   simp [Out.isPanic]
 
 
